@@ -20,6 +20,7 @@ type task struct {
 	name  string
 	vc    vclock
 	locks []*value
+	waitOn any // the mutex this task is blocked on in Lock (for hand-off at Unlock)
 	daemon bool // engine-provided pseudo task (ticker): not part of the program's goroutines
 }
 
@@ -219,6 +220,33 @@ func (s *scheduler) preemptPoint(what string) {
 		return
 	}
 	me.cond, me.what = func() bool { return true }, what
+	s.switchTo(en[k])
+	me.cond, me.what = nil, ""
+}
+
+// handoff models the Go mutex's starvation mode (and plain timing): at
+// Unlock a goroutine already blocked in Lock on the same mutex may acquire it
+// before the unlocking goroutine runs on, even if that one relocks at once.
+// An explicit decision, independent of the preemption budget.
+func (s *scheduler) lockHandoff(m any) {
+	if s.i.cfg.Sched == "first" {
+		return
+	}
+	me := s.cur
+	en := []*task{me}
+	for _, t := range s.tasks {
+		if t != me && !t.done && t.waitOn == m && t.enabled() {
+			en = append(en, t)
+		}
+	}
+	if len(en) < 2 {
+		return
+	}
+	k := s.i.ps.choose(len(en), "handoff", "Mutex.Unlock")
+	if en[k] == me {
+		return
+	}
+	me.cond, me.what = func() bool { return true }, "Mutex.Unlock"
 	s.switchTo(en[k])
 	me.cond, me.what = nil, ""
 }
